@@ -8,6 +8,8 @@ import Mdsort.Proofs.ConfSpec2
 namespace Mdsort.Proofs.Conf
 open Mdsort Mdsort.Model Mdsort.Spec
 
+variable {tl : Bytes} {NoErr : Nat → ParseSt → Prop}
+
 theorem strsToks_ok (l : List Bytes) (h : ∀ b ∈ l, strOK b = true) : ∀ x ∈ strsToks l, tokOK x = true := by
   intro x hx
   simp only [strsToks, List.mem_append, List.mem_cons, List.mem_map, List.not_mem_nil, or_false] at hx
@@ -208,19 +210,19 @@ theorem blockToks_ok (rx : Pat → Bool) (b : PBlock) (h1 : blockOK rx b = true)
   · exact toks_ok rx b.tree .block h1.1.1 h2 x hx
 
 /-- One block. -/
-theorem maildirBody_rt (cx : PCtx) (hnl : cx.nl = 0) (b : PBlock) (h1 : blockOK cx.rxOk b = true)
+theorem maildirBody_rt (cx : PCtx) (hnl : cx.nl = countNl tl) (b : PBlock) (h1 : blockOK cx.rxOk b = true)
     (h2 : treePOK b.tree = true) (fuel : Nat) :
-    RT (parseMaildirBody cx fuel b.paths) (relabelBlock b) (toks .block b.tree) := by
+    RT cx tl (parseMaildirBody cx fuel b.paths) (relabelBlock b) (toks .block b.tree) := by
   intro s ts hs
   simp only [blockOK, Bool.and_eq_true, decide_eq_true_eq, Bool.or_eq_true, Bool.not_eq_true', beq_iff_eq] at h1
   obtain ⟨⟨hw, hcount⟩, hrej⟩ := h1
   unfold parseMaildirBody
-  simp only [wp_bind]
+  simp only [wpl_bind]
   rw [toks_block_cons _ _ hw] at hs
   simp only [List.cons_append] at hs
-  refine wp_of_rt (expectTk_rt cx .lbrace rfl) hs ?_
+  refine wpl_of_rt (expectTk_rt cx .lbrace rfl) hs ?_
   intro s1 h1
-  refine wp_of_rt (all_rt cx hnl b.tree .block hw h2 fuel) h1 ?_
+  refine wpl_of_rt (all_rt cx hnl b.tree .block hw h2 NoE fuel) h1 ?_
   intro s2 h2'
   have hne : ((relabel b.tree).countActions == 0) = false := by
     rw [countActions_relabel]; simp only [beq_eq_false_iff_ne]; omega
@@ -229,88 +231,118 @@ theorem maildirBody_rt (cx : PCtx) (hnl : cx.nl = 0) (b : PBlock) (h1 : blockOK 
     rcases hrej with h | h
     · simp [h]
     · simp [h]
-  simp only [hne, hrj, wp_ite, Bool.false_eq_true, if_false, wp_pure]
+  simp only [hne, hrj, wpl_ite, Bool.false_eq_true, if_false, wpl_pure]
   exact ⟨rfl, h2'⟩
 
 theorem any_stdin_relabel (l : List PBlock) :
     ((l.map relabelBlock).any fun b => b.paths.any isStdinStr) = (l.any fun b => b.paths.any isStdinStr) := by
   induction l <;> simp_all [relabelBlock]
 
-/-- The whole file. -/
-theorem parseTop_rt (cx : PCtx) (hnl : cx.nl = 0) : ∀ (rest seen : List PBlock),
-    (∀ b ∈ rest, blockOK cx.rxOk b = true ∧ treePOK b.tree = true ∧ b.paths.all strOK = true) →
-    stdinOK seen rest = true →
-    ∀ (fuel : Nat) (s : ParseSt), Up s (rest.flatMap blockToks) →
-      wp (parseTop cx fuel (seen.map relabelBlock))
-        (fun r s' => r = (seen ++ rest).map relabelBlock ∧ s'.macros = []) NoErr True s := by
-  intro rest
-  induction rest with
+/-- One more block: after a written block `b` the top-level loop goes on with `b` appended. -/
+theorem parseTop_step (cx : PCtx) (hnl : cx.nl = countNl tl) (b : PBlock)
+    (hb : blockOK cx.rxOk b = true ∧ treePOK b.tree = true ∧ b.paths.all strOK = true) (seen : List PBlock)
+    (hstd : b.paths = [stdinStr] → (seen.any fun x => x.paths.any isStdinStr) = false)
+    (ts : List PTok) (Q : List PBlock → ParseSt → Prop)
+    (hQ : ∀ fuel' s', Up cx tl s' ts → wpl (parseTop cx fuel' (seen ++ [relabelBlock b])) Q NoErr True s') :
+    ∀ (fuel : Nat) (s : ParseSt), Up cx tl s (blockToks b ++ ts) → wpl (parseTop cx fuel seen) Q NoErr True s := by
+  intro fuel s hs
+  cases fuel with
+  | zero => simp [parseTop, wpl, outOfFuel]
+  | succ fuel =>
+    unfold parseTop
+    simp only [wpl_bind]
+    simp only [blockToks, List.append_assoc] at hs
+    by_cases hp : b.paths = [stdinStr]
+    · -- `stdin { }`
+      rw [if_pos hp] at hs
+      simp only [List.cons_append, List.nil_append] at hs
+      apply wpl_peek_up cx _ _ hs rfl
+      intro s1 h1
+      simp only [tkOf, wpl_bind]
+      apply wpl_shift_up h1
+      intro s2 h2
+      simp only [hstd hp, wpl_ite, Bool.false_eq_true, if_false, wpl_bind]
+      have hbody := maildirBody_rt (tl := tl) cx hnl b hb.1 hb.2.1 fuel
+      rw [hp] at hbody
+      refine wpl_of_rt hbody h2 ?_
+      intro s3 h3
+      exact hQ fuel s3 h3
+    · -- `maildir { "path" ... } { }`
+      rw [if_neg hp] at hs
+      simp only [List.cons_append, List.nil_append, List.append_assoc] at hs
+      apply wpl_peek_up cx _ _ hs rfl
+      intro s1 h1
+      simp only [tkOf, wpl_bind]
+      apply wpl_shift_up h1
+      intro s2 h2
+      refine wpl_of_rt (parseStrings_rt cx b.paths fuel) h2 ?_
+      intro s3 h3
+      have hpaths : ∀ p ∈ b.paths, strOK p = true := by simpa [List.all_eq_true] using hb.2.2
+      apply wpl_expandAll_up cx false b.paths hpaths h3
+      refine wpl_of_rt (maildirBody_rt cx hnl b hb.1 hb.2.1 fuel) h3 ?_
+      intro s4 h4
+      exact hQ fuel s4 h4
+
+/-- Written blocks `pre` in front of anything: the top-level loop reads them and goes on. -/
+theorem parseTop_prefix (cx : PCtx) (hnl : cx.nl = countNl tl) : ∀ (pre seen : List PBlock),
+    (∀ b ∈ pre, blockOK cx.rxOk b = true ∧ treePOK b.tree = true ∧ b.paths.all strOK = true) →
+    stdinOK seen pre = true →
+    ∀ (ts : List PTok) (Q : List PBlock → ParseSt → Prop),
+    (∀ fuel' s', Up cx tl s' ts → wpl (parseTop cx fuel' ((seen ++ pre).map relabelBlock)) Q NoErr True s') →
+    ∀ (fuel : Nat) (s : ParseSt), Up cx tl s (pre.flatMap blockToks ++ ts) →
+      wpl (parseTop cx fuel (seen.map relabelBlock)) Q NoErr True s := by
+  intro pre
+  induction pre with
   | nil =>
-    intro seen _ _ fuel s hs
-    cases fuel with
-    | zero => simp [parseTop, wp, outOfFuel]
-    | succ fuel =>
-      unfold parseTop
-      simp only [wp_bind]
-      simp only [List.flatMap_nil] at hs
-      apply wp_peek_end cx _ _ hs
-      intro s1 hm
-      simp only [wp_pure, List.append_nil]
-      exact ⟨trivial, hm⟩
+    intro seen _ _ ts Q hQ fuel s hs
+    simpa using hQ fuel s (by simpa using hs)
   | cons b rest ih =>
-    intro seen hall hstd fuel s hs
+    intro seen hall hstd ts Q hQ fuel s hs
     have hb := hall b (by simp)
     simp only [stdinOK, Bool.and_eq_true, Bool.or_eq_true, Bool.not_eq_true', decide_eq_false_iff_not, decide_eq_true_eq] at hstd
-    have ihn := ih (seen ++ [b]) (fun x hx => hall x (by simp [hx])) hstd.2
-    have hmap : (seen ++ [b]).map relabelBlock = seen.map relabelBlock ++ [relabelBlock b] := by simp
-    have hfin : ∀ fuel s', Up s' (rest.flatMap blockToks) →
-        wp (parseTop cx fuel (seen.map relabelBlock ++ [relabelBlock b]))
-          (fun r s' => r = (seen ++ b :: rest).map relabelBlock ∧ s'.macros = []) NoErr True s' := by
-      intro fuel s' h'
-      have := ihn fuel s' h'
-      rw [hmap] at this
-      simpa using this
-    cases fuel with
-    | zero => simp [parseTop, wp, outOfFuel]
-    | succ fuel =>
-      unfold parseTop
-      simp only [wp_bind]
-      simp only [List.flatMap_cons, blockToks, List.append_assoc] at hs
-      by_cases hp : b.paths = [stdinStr]
-      · -- `stdin { }`
-        rw [if_pos hp] at hs
-        simp only [List.cons_append, List.nil_append] at hs
-        apply wp_peek_up cx _ _ hs rfl
-        intro s1 h1
-        simp only [tkOf, wp_bind]
-        apply wp_shift_up h1
-        intro s2 h2
-        have hno : ((seen.map relabelBlock).any fun x => x.paths.any isStdinStr) = false := by
-          rw [any_stdin_relabel]
-          rcases hstd.1 with h | h
-          · exact absurd hp h
-          · exact h
-        simp only [hno, wp_ite, Bool.false_eq_true, if_false, wp_bind]
-        have hbody := maildirBody_rt cx hnl b hb.1 hb.2.1 fuel
-        rw [hp] at hbody
-        refine wp_of_rt hbody h2 ?_
-        intro s3 h3
-        exact hfin fuel s3 h3
-      · -- `maildir { "path" ... } { }`
-        rw [if_neg hp] at hs
-        simp only [List.cons_append, List.nil_append, List.append_assoc] at hs
-        apply wp_peek_up cx _ _ hs rfl
-        intro s1 h1
-        simp only [tkOf, wp_bind]
-        apply wp_shift_up h1
-        intro s2 h2
-        refine wp_of_rt (parseStrings_rt cx b.paths fuel) h2 ?_
-        intro s3 h3
-        have hpaths : ∀ p ∈ b.paths, strOK p = true := by simpa [List.all_eq_true] using hb.2.2
-        apply wp_expandAll_up cx false b.paths hpaths h3
-        refine wp_of_rt (maildirBody_rt cx hnl b hb.1 hb.2.1 fuel) h3 ?_
-        intro s4 h4
-        exact hfin fuel s4 h4
+    have hno : b.paths = [stdinStr] → ((seen.map relabelBlock).any fun x => x.paths.any isStdinStr) = false := by
+      intro hp
+      rw [any_stdin_relabel]
+      rcases hstd.1 with h | h
+      · exact absurd hp h
+      · exact h
+    simp only [List.flatMap_cons, List.append_assoc] at hs
+    refine parseTop_step cx hnl b hb (seen.map relabelBlock) hno (rest.flatMap blockToks ++ ts) Q ?_ fuel s hs
+    intro fuel' s' h'
+    have := ih (seen ++ [b]) (fun x hx => hall x (by simp [hx])) hstd.2 ts Q
+      (by intro f2 s2 h2; have := hQ f2 s2 h2; simpa using this) fuel' s' h'
+    simpa using this
+
+/-- The whole file. -/
+theorem parseTop_rt (cx : PCtx) (hnl : cx.nl = 0) (rest seen : List PBlock)
+    (hall : ∀ b ∈ rest, blockOK cx.rxOk b = true ∧ treePOK b.tree = true ∧ b.paths.all strOK = true)
+    (hstd : stdinOK seen rest = true) (fuel : Nat) (s : ParseSt) (hs : Up cx [] s (rest.flatMap blockToks)) :
+    wpl (parseTop cx fuel (seen.map relabelBlock))
+      (fun r s' => r = (seen ++ rest).map relabelBlock ∧ s'.macros = []) NoErr True s := by
+  refine parseTop_prefix (tl := []) cx (by simpa [countNl] using hnl) rest seen hall hstd [] _ ?_ fuel s (by simpa using hs)
+  intro fuel' s' h'
+  cases fuel' with
+  | zero => simp [parseTop, wpl, outOfFuel]
+  | succ fuel' =>
+    unfold parseTop
+    simp only [wpl_bind]
+    apply wpl_peek_end cx _ _ h'
+    intro s1 hm
+    simp only [wpl_pure]
+    exact ⟨trivial, hm⟩
+
+/-- `yylval.lineno` before the first token is read does not matter. -/
+theorem peek_tokLine (cx : PCtx) (pf sf : Bool) (s : ParseSt) (hla : s.la = none) (x : Nat) :
+    peek cx pf sf { s with tokLine := x } = peek cx pf sf s := by
+  unfold peek
+  simp only [hla]
+
+theorem parseTop_tokLine (cx : PCtx) (fuel : Nat) (bl : List PBlock) (s : ParseSt) (hla : s.la = none) (x : Nat) :
+    parseTop cx (fuel + 1) bl { s with tokLine := x } = parseTop cx (fuel + 1) bl s := by
+  unfold parseTop
+  show PM.bind (peek cx false false) _ _ = PM.bind (peek cx false false) _ _
+  unfold PM.bind
+  rw [peek_tokLine cx false false s hla x]
 
 /-- `parseConfig` reads back every configuration `printBlocks` is meant for, with every node on line 1. -/
 theorem printBlocks_roundtrip (home : Bytes) (rx : Pat → Bool) (bs : List PBlock) (hok : ConfOK rx bs = true) :
@@ -319,21 +351,28 @@ theorem printBlocks_roundtrip (home : Bytes) (rx : Pat → Bool) (bs : List PBlo
   obtain ⟨hall, hstd⟩ := hok
   have hall' : ∀ b ∈ bs, blockOK rx b = true ∧ treePOK b.tree = true ∧ b.paths.all strOK = true := by
     intro b hb; have := hall b hb; exact ⟨this.1.1, this.1.2, by simpa [List.all_eq_true] using this.2⟩
-  have htoks : ∀ x ∈ bs.flatMap blockToks, tokOK x = true := by
+  have htoks : ∀ x ∈ bs.flatMap blockToks, lexOK x = true := by
     intro x hx
     simp only [List.mem_flatMap] at hx
     obtain ⟨b, hb, hx⟩ := hx
-    exact blockToks_ok rx b (hall' b hb).1 (hall' b hb).2.1 (hall' b hb).2.2 x hx
+    exact lexOK_of_tokOK (blockToks_ok rx b (hall' b hb).1 (hall' b hb).2.1 (hall' b hb).2.2 x hx)
   have hnl : countNl (printBlocks bs) = 0 := render_noNl _ htoks
   have htot := (parseConfigFull_spec home [] rx (printBlocks bs)).1
   unfold parseConfig parseConfigFull at htot ⊢
   simp only [macrosOfDefs] at htot ⊢
-  have hs0 : Up ({ rest := printBlocks bs, macros := [] } : ParseSt) (bs.flatMap blockToks) :=
-    Or.inl ⟨rfl, rfl, rfl, rfl, htoks⟩
-  have := parseTop_rt { nl := countNl (printBlocks bs), home := home, rxOk := rx } hnl bs [] hall' hstd
+  have hs0 : Up { nl := countNl (printBlocks bs), home := home, rxOk := rx } []
+      ({ rest := printBlocks bs, macros := [], tokLine := 1 } : ParseSt) (bs.flatMap blockToks) :=
+    Or.inl ⟨rfl, by simp [printBlocks], rfl, rfl, htoks, by simp, by simpa [countNl] using hnl, rfl⟩
+  have := parseTop_rt (NoErr := NoE) { nl := countNl (printBlocks bs), home := home, rxOk := rx } hnl bs [] hall' hstd
     ((printBlocks bs).length + 1) _ hs0
   simp only [List.map_nil, List.nil_append] at this
-  unfold wp at this
+  have h1 : parseTop { nl := countNl (printBlocks bs), home := home, rxOk := rx } ((printBlocks bs).length + 1) []
+      ({ rest := printBlocks bs, macros := [], tokLine := 1 } : ParseSt) =
+      parseTop { nl := countNl (printBlocks bs), home := home, rxOk := rx } ((printBlocks bs).length + 1) []
+      ({ rest := printBlocks bs, macros := [] } : ParseSt) :=
+    parseTop_tokLine _ _ _ ({ rest := printBlocks bs, macros := [] } : ParseSt) rfl 1
+  unfold wpl at this
+  rw [h1] at this
   split at this
   · rename_i blocks s' heq
     rw [heq]
